@@ -15,7 +15,8 @@ from sim.clock import StepClock, SimTimeout
 from sim.tape import Tape
 from .pymsg import Violation, _msgkey
 
-STEP_A, STEP_B = 1500000, 12000        # line events: A + B * total input characters
+STEP_A, STEP_B = 1500000, 3000         # line events: A + B * total input characters (worst valid compile seen:
+                                       # 417k events for 375 characters, most of it ply table construction)
 
 INTERNAL = (ValueError, KeyError, AttributeError, TypeError, IndexError, AssertionError, RecursionError)
 GEN_EXT = {"--python_out": [".py"], "--cpp_out": [".pp.hpp", ".pp.cpp"], "--cpp_full_out": [".ppf.hpp", ".ppf.cpp"],
